@@ -307,6 +307,8 @@ def make(interp):
 
     @model
     def b_iter(x):
+        if hasattr(x, '_lazy_map') and hasattr(x, '_concrete_len') and not x._concrete_len():
+            return x          # a lazy sequence of symbolic length is its own (single pass) iterator
         return interp.iterate(x)
 
     @model
